@@ -182,6 +182,7 @@ type Runner struct {
 	sameIters    int
 	stuck        atomic.Bool
 	stopped      atomic.Bool // stop injected
+	stopHost     string      // step whose own hook hosted the stop injection ("" if none)
 	finished     atomic.Bool
 	aborted      atomic.Bool
 	inconcl      atomic.Value
@@ -584,16 +585,23 @@ func (r *Runner) onHook(c *Case, name string, arg any) {
 		r.launchedIter++
 		r.maybeStopAt("launch")
 	case "dagsched.worker.beforeExec":
-		r.maybeStopAt("worker.beforeExec")
+		r.maybeStopAt("worker.beforeExec", hookStep(arg))
 	case "dagsched.retry.wait":
-		r.maybeStopAt("retry.wait")
+		r.maybeStopAt("retry.wait", hookStep(arg))
 	case "dagsched.repeat.wait":
-		r.maybeStopAt("repeat.wait")
+		r.maybeStopAt("repeat.wait", hookStep(arg))
 	case "dagsched.handlers":
 		r.maybeStopAt("handlers")
 	case "dagsched.signal.pass":
 		r.passOnce.Do(func() { close(r.signalPass) })
 	}
+}
+
+func hookStep(arg any) string {
+	if n, ok := arg.(*scheduler.Node); ok && n != nil {
+		return nameOf(n)
+	}
+	return ""
 }
 
 func (r *Runner) freeLoop() {
@@ -619,7 +627,7 @@ func (r *Runner) freeLoop() {
 	}
 }
 
-func (r *Runner) maybeStopAt(at string) {
+func (r *Runner) maybeStopAt(at string, host ...string) {
 	spec := r.Spec
 	if spec.Stop == nil || spec.Stop.At != at {
 		return
@@ -629,6 +637,9 @@ func (r *Runner) maybeStopAt(at string) {
 	r.hookCount[at]++
 	r.mu.Unlock()
 	if n == spec.Stop.Nth && !r.stopped.Load() {
+		if len(host) > 0 {
+			r.stopHost = host[0]
+		}
 		r.injectStop(at)
 	}
 }
@@ -641,7 +652,8 @@ func (r *Runner) injectStop(where string) {
 	}
 	c := r.Case
 	spec := r.Spec
-	c.Log("CTL", "", "stop.inject:"+spec.Stop.Kind+"@"+where)
+	// the step whose own hook hosts the injection is known to be exactly there
+	c.Log("CTL", r.stopHost, "stop.inject:"+spec.Stop.Kind+"@"+where)
 	g := c.Graph()
 	switch {
 	case spec.Stop.Kind == "timeout":
